@@ -347,8 +347,7 @@ class SimAdapter:
             d = getter(unpack_singleton=False)
             out[key] = {n: byv([fl(x) for x in v]) for n, v in d.items()}
         sols = []
-        for v in m._variants:
-            s = v.solution
+        for s in m.get_solution(unpack_singleton=False):
             if s is None:
                 sols.append(None)
             else:
@@ -631,7 +630,7 @@ class VarAdapter:
                "names": list(m.get_endogenous_names())}
         sys_ = m.get_system_matrices(unpack_singleton=False)
         out["system"] = byv([{n: arr(getattr(s, n)) for n in ("A", "B", "c", "cov_residuals")} for s in sys_])
-        out["fitted"] = byv([len(v.fitted_periods) for v in m._variants])
+        out["fitted"] = byv([None if sy.A is None else list(np.asarray(sy.A).shape) for sy in sys_])
         return out
 
     def deep(self, m, tname, horizon=3):
